@@ -2,7 +2,7 @@
 What is logic is proved in Coq (coq/props/C07.v: storage of both ring buffers never changes size under
 any history; a growable vector driven by a fixed push/pop/clear script stops reallocating after the
 first run — the processor's steady state).  Allocator behaviour itself cannot be exhibited by a Coq
-model; it is OBSERVED: a counting GlobalAlloc around the allocation-free API surface (66 scenarios,
+model; it is OBSERVED: a counting GlobalAlloc around the allocation-free API surface (67 scenarios,
 each constructed, warmed up once, then run K more times with varied inputs)."""
 import json, os
 import framework as F
@@ -11,7 +11,7 @@ PROP = "C07"
 META = dict(
     category="other",
     technique="Coq size/capacity theorems (ring-buffer storage constant, vector steady state) + counting-allocator observation of the API surface",
-    text="Coq proves the logical half (12 theorems): every history of Bounded/Fixed operations leaves the backing storage length unchanged (corollary of the C06 refinement); the bus backlog length equals the maximum lag over live outputs and, under lock-step pulling with drops/re-attachments between rounds, is empty at every round boundary and never exceeds one frame (corollaries of the C13 model); the push/pop/clear scripts that one Processor::process call applies to its DFS stack and inputs vectors are a function of (graph, output node) only and faithful to the C09 traversal model, so after ONE call every further call on the same graph reallocates neither vector (any multigraph, no size bound), with high-water marks 1+|V|+|E| and max in-degree, and with_capacity covering them never reallocates. That an operation performs no allocation is a runtime fact no Coq model can exhibit; it is observed with a counting GlobalAlloc over 66 scenarios covering sample/frame/slice/ring-buffer/peak/RMS/envelope/interpolation/window/signal sources and adaptors/fork/buffered/converter/windower/graph processing with stock nodes, with the documented exceptions (bus, by_rc creation, boxed conversions) checked for boundedness/balance instead. This is labelled 'other', not proof.",
+    text="Coq proves the logical half (12 theorems): every history of Bounded/Fixed operations leaves the backing storage length unchanged (corollary of the C06 refinement); the bus backlog length equals the maximum lag over live outputs and, under lock-step pulling with drops/re-attachments between rounds, is empty at every round boundary and never exceeds one frame (corollaries of the C13 model); the push/pop/clear scripts that one Processor::process call applies to its DFS stack and inputs vectors are a function of (graph, output node) only and faithful to the C09 traversal model, so after ONE call every further call on the same graph reallocates neither vector (any multigraph, no size bound), with high-water marks 1+|V|+|E| and max in-degree, and with_capacity covering them never reallocates. That an operation performs no allocation is a runtime fact no Coq model can exhibit; it is observed with a counting GlobalAlloc over 67 scenarios covering sample/frame/slice/ring-buffer/peak/RMS/envelope/interpolation/window/signal sources and adaptors/fork/buffered/converter/windower/graph processing with stock nodes, with the documented exceptions (bus, by_rc creation, boxed conversions) checked for boundedness/balance instead. This is labelled 'other', not proof.",
     note="Trusted: Coq kernel for the capacity theorems; for the allocator half the harness's scenario list is the coverage: an allocation reachable only through an API call or input class the scenarios do not exercise is missed. petgraph/std Vec growth is modelled only as (len, cap).",
     design="6/C07")
 
@@ -25,7 +25,7 @@ ZERO = ["sample_conv", "sample_amp", "frame_ops2", "frame_ops32", "slice_views",
         "fork_by_ref", "fork_by_rc_steady", "buffered_next", "buffered_frames", "sig_rms", "sig_env",
         "graph_stable", "graph_nested",
         "ring_bounded_index", "ring_bounded_raw", "frame_channels_mut", "interp_direct", "lift", "conv_source_access",
-        "rectifier_structs", "window_direct", "slice_trait_forms"]
+        "rectifier_structs", "window_direct", "slice_trait_forms", "graph_node_shapes"]
 
 
 def verdict(name, k, v):
